@@ -468,7 +468,12 @@ SerdeRoundTripOK(form, a, r, c) ==
            num == IF adapter THEN SubSeq(doc, 6, Len(doc) - 1) ELSE Unquote(doc)
        IN IF ~shapeOK THEN Bad("document-shape")
           ELSE IF ~IsNumeral(num) \/ (adapter /\ ~IsJsonNumber(num)) THEN Bad("not-a-number-document")
-          ELSE IF ~FmtRelOK("display", a, num, c) THEN Bad("serialized-text-does-not-denote-the-decimal")
+          \* the string form preserves digits and scale wherever Display does (identical, or the written-out zeros of a small
+          \* negative scale); the JSON-number adapters only promise an equal decimal.  How Display chooses its notation is C04's business.
+          ELSE IF ~(IF adapter THEN WValEq(ParseValue(num), a)
+                    ELSE ParseValue(num) = a \/ (a.z.s < 0 /\ ZSmall(a.z) /\ ParseValue(num) = Padded(a)))
+               THEN Bad("serialized-text-does-not-denote-the-decimal")
+          ELSE IF ~FmtRelOK("display", a, num, c) THEN Info("serialized-text-is-not-the-display-text")
           ELSE LET pv == ParseValue(num) IN
                IF adapter /\ OverSerdeLimit(pv, c) THEN Chk(IsErr(r.back), "scale-limit-not-enforced")
                ELSE Chk(IsBack(r.back, pv) /\ WValEq(pv, a), "does-not-round-trip")
